@@ -254,6 +254,29 @@ func chainProgram(variant int) map[string]string {
 	return files
 }
 
+// aliasProgram: included packages that share a base name (or are named like a package the generated code imports) and
+// are referred to only from services, so that the first thing to import them into the types file is the IDL embedding.
+func aliasProgram(variant int) map[string]string {
+	files := map[string]string{}
+	// the generated code imports the standard "errors", "strings", "fmt" packages: an include of that name is imported as
+	// errors2, and an include called errors2 wants that alias as well -- who gets it must not depend on map order
+	names := []string{"errors", "errors2", "errors3", "strings", "strings2", "fmt", "fmt2"}
+	var sb strings.Builder
+	for _, n := range names {
+		files["/v/"+n+".thrift"] = fmt.Sprintf("exception Failure { 1: optional string why }\nstruct Item { 1: optional i32 v }\n")
+		fmt.Fprintf(&sb, "include \"./%s.thrift\"\n", n)
+	}
+	if variant%2 == 0 {
+		// nothing but the service refers to the includes
+		sb.WriteString("struct Local { 1: required string name, 2: optional list<string> tags }\n")
+	} else {
+		sb.WriteString("struct Local { 1: required string name, 2: optional strings2.Item b }\n")
+	}
+	sb.WriteString("service Svc { errors.Item get(1: errors2.Item a, 2: errors3.Item b, 3: strings.Item c, 4: strings2.Item d, 5: fmt.Item e, 6: fmt2.Item f) throws (1: errors2.Failure x) }\n")
+	files["/v/root.thrift"] = sb.String()
+	return files
+}
+
 func cmdC10(args []string) error {
 	c := newCommon("c10")
 	infPath := c.fs.String("inflight", "", "file receiving the case in flight")
@@ -350,6 +373,18 @@ func cmdC10(args []string) error {
 			for _, o := range optSets[:2] {
 				for i := 0; i < 3**runs; i++ {
 					if err := emit(fmt.Sprintf("chain:%d", v), files, "/v/root.thrift", []step{}, true, o, i); err != nil {
+						return err
+					}
+				}
+			}
+		}
+	}
+	if *big > 0 {
+		for v := 0; v < 2; v++ {
+			files := aliasProgram(v)
+			for _, o := range optSets[:2] {
+				for i := 0; i < 4**runs; i++ {
+					if err := emit(fmt.Sprintf("alias:%d", v), files, "/v/root.thrift", []step{}, true, o, i); err != nil {
 						return err
 					}
 				}
